@@ -311,7 +311,7 @@ func cmdLRange(st *store, a [][]byte, _ *options) (interface{}, error) {
 		start += n
 	}
 	if stop < 0 {
-		stop += n + 1
+		stop += n
 	}
 	if start < 0 {
 		start = 0
